@@ -6,6 +6,7 @@ import (
 	"math"
 	"reflect"
 	"strconv"
+	"strings"
 	"unicode/utf16"
 )
 
@@ -734,6 +735,15 @@ func (v Value) evaluateBreak(labels []string) resultKind {
 		}
 	}
 	return resultReturn
+}
+
+// conversionPanic is what a failed conversion of a value written to a bridged Go
+// slice, array or map panics with: a RangeError the script can see and catch.
+// (A plain Go error would escape Run as a foreign panic.)
+func conversionPanic(err error) *exception {
+	return &exception{
+		value: newError(nil, "RangeError", 0, "%s", strings.TrimPrefix(err.Error(), "RangeError: ")),
+	}
 }
 
 // Make a best effort to return a reflect.Value corresponding to reflect.Kind, but
